@@ -371,7 +371,7 @@ where
 struct ShiftedTruncatedDiscreteLaplace {
     truncated_discrete_laplace: OPRFPaddingDp,
     shift: u32,
-    modulus: u32,
+    modulus: u64,
 }
 
 impl ShiftedTruncatedDiscreteLaplace {
@@ -387,11 +387,9 @@ impl ShiftedTruncatedDiscreteLaplace {
         )?;
         let shift = truncated_discrete_laplace.get_shift();
         assert!(bit_size <= 32);
-        let modulus = if bit_size < 32 {
-            2_u32.pow(bit_size)
-        } else {
-            u32::MAX
-        };
+        // 2^bit_size does not fit in a u32 for bit_size = 32 (and u32::MAX is not a
+        // substitute: reducing modulo 2^32 - 1 maps the noise value -1 to 0).
+        let modulus = 1_u64 << bit_size;
 
         Ok(Self {
             truncated_discrete_laplace,
@@ -414,7 +412,7 @@ impl ShiftedTruncatedDiscreteLaplace {
         OV: BooleanArray + U128Conversions,
     {
         let sample = self.sample(rng);
-        let symmetric_sample = sample.wrapping_sub(self.shift) % self.modulus;
+        let symmetric_sample = u64::from(sample.wrapping_sub(self.shift)) % self.modulus;
         match direction_to_excluded_helper {
             Direction::Left => {
                 Replicated::new(OV::ZERO, OV::truncate_from(u128::from(symmetric_sample)))
